@@ -9,6 +9,7 @@ import (
 	"path/filepath"
 	"strconv"
 	"strings"
+	gotime "time"
 
 	"github.com/jotaen/klog/klog/app/cli"
 	cliutil "github.com/jotaen/klog/klog/app/cli/util"
@@ -87,7 +88,7 @@ func init() {
 		Title: "Clock-relative behaviour is right at every minute of the day",
 		Rule: "EVERY minute 0..1439 of the clock x calendar days (quick: an ordinary day and the day after a leap day; thorough: also month end, Feb 28 common/leap, Feb 29, Dec 31, Jan 1) x roundings {none,5,10,12,15,20,30,60} " +
 			"(as --round and, on a stride, as default_rounding; on another stride with time_convention = 12h) x date selection {default, --today, --yesterday, --tomorrow, explicit --date} x 8 record layouts (no file content, today without/with open range, yesterday's open range, both, yesterday closed, tomorrow's open range, open range two days ago) x {start, stop, switch}; " +
-			"plus `klog total --now` at every minute x 6 layouts (open range today/yesterday/older/tomorrow, starting before and after now). A case = (day, minute, command line, layout); all distinct.",
+			"plus `klog total --now` at every minute x 6 layouts (open range today/yesterday/older/tomorrow, starting before and after now), each followed by `klog today --now --follow` over refreshes at +0, +1 and +61 minutes (possibly past midnight): every refresh shows the total of ITS instant or refuses. A case = (day, minute, command line, layout); all distinct.",
 		Assumptions: []string{
 			"model (cmdmodel.go): rounded = nearest multiple, ties up (may reach 24:00); relative to the target date +24h for yesterday's record and -24h for tomorrow's; representable iff within <0:00 .. 23:59>; stop falls back to the previous day only when no date/time was given and today has no record; an unrepresentable time must be refused with an error, never crash, never write another time",
 			"every case runs the command struct on the real context (clidrv.Exec); every 97th case also goes through klog.Run with real flag decoding",
@@ -287,6 +288,56 @@ func (x *c17X) now(day sm.Date, minute, lay int) {
 	}
 	if r.Code != 0 || got != want {
 		c.Violation("now-total", cs, fmt.Sprintf("`klog total --now` %s printed %q (exit %d), expected a total of %d minutes\nfile: %q", at, r.Stdout, r.Code, want, text))
+		return
 	}
+	// the clock advances under a running `klog today --now --follow`: every refresh evaluates at ITS instant
+	// (refreshes at +0, +1 and +61 minutes; the last two may lie on the next day)
+	deltas := []int{0, 1, 61}
+	var ticks []gotime.Time
+	for _, d := range deltas {
+		ticks = append(ticks, opts.Now.Add(gotime.Duration(d)*gotime.Minute))
+	}
+	fr := clidrv.Exec(x.home, clidrv.Opts{Now: ticks[0], TickTimes: ticks}, &cli.Today{NowArgs: cliutil.NowArgs{Now: true}, Follow: true,
+		DecimalArgs: cliutil.DecimalArgs{Decimal: true}, NoStyleArgs: cliutil.NoStyleArgs{NoStyle: true}, WarnArgs: cliutil.WarnArgs{NoWarn: true}, InputFilesArgs: fileArgs(path)})
+	if fr.Panicked {
+		c.Violation("panic:today-follow:"+fw.PanicSite(fr.Stack), cs, fmt.Sprintf("`klog today --now --follow` %s panicked: %v\n%s", at, fr.PanicVal, fr.Stack))
+		return
+	}
+	parts := strings.Split(fr.Stdout, "\033[H\033[J")
+	if len(parts) < 2 {
+		c.Violation("follow-output", cs, fmt.Sprintf("`klog today --now --follow` %s printed no refresh: %q", at, fr.Stdout))
+		return
+	}
+	parts = parts[1:]
+	for k, d := range deltas {
+		dayK, minK := today+(minute+d)/1440, (minute+d)%1440
+		closedK, okK, _ := sm.CloseAt(ref.Records, dayK, minK)
+		if !okK {
+			// this refresh must refuse and end the command
+			if fr.Code == 0 || len(parts) != k+1 {
+				c.Violation("follow-not-refused", cs, fmt.Sprintf("`klog today --now --follow` %s: at refresh %d (+%d min) an open range can no longer be closed; the command must stop with an error (exit %d, %d refreshes shown)", at, k, d, fr.Code, len(parts)))
+			}
+			c.Outcome("follow-refused")
+			return
+		}
+		if k >= len(parts) {
+			c.Violation("follow-output", cs, fmt.Sprintf("`klog today --now --follow` %s stopped after %d refreshes (exit %d %s)", at, len(parts), fr.Code, fr.Err))
+			return
+		}
+		wantK, gotK := sm.Total(closedK), -1<<40
+		for _, l := range strings.Split(parts[k], "\n") {
+			f := strings.Fields(l)
+			if len(f) >= 2 && f[0] == "All" {
+				if n, err := strconv.Atoi(f[1]); err == nil {
+					gotK = n
+				}
+			}
+		}
+		if gotK != wantK {
+			c.Violation("follow-total", cs, fmt.Sprintf("`klog today --now --follow` %s: refresh %d (+%d min) shows All = %d, expected %d minutes\n%s", at, k, d, gotK, wantK, parts[k]))
+			return
+		}
+	}
+	c.Outcome("follow-ok")
 	_ = docgen.DefaultLayout
 }
